@@ -101,15 +101,17 @@ Apply1(s, q, c) == CASE c = 1 -> [s EXCEPT ![q] = 120]
 RECURSIVE ApplyAll(_, _)
 ApplyAll(s, es) == IF es = <<>> THEN s
                    ELSE LET n == Len(es) IN ApplyAll(Apply1(s, es[n - 1], es[n]), SubSeq(es, 1, n - 2))
-EditSeqs(s) ==
-  LET E == Edits(s) IN
-  {<<e[1], e[2]>> : e \in E}
-  \cup UNION {{<<e1[1], e1[2], e2[1], e2[2]>> : e2 \in {e \in E : e[1] > e1[1] /\ e[1] - e1[1] <= W2}} : e1 \in E}
-  \cup UNION {UNION {{<<e1[1], e1[2], e2[1], e2[2], e3[1], e3[2]>> :
-                        e3 \in {e \in E : e[1] > e2[1] /\ e[1] - e1[1] <= W3}} :
-                     e2 \in {e \in E : e[1] > e1[1] /\ e[1] - e1[1] < W3}} : e1 \in E}
-MutCases == UNION {{[fam |-> "mut", base |-> b, p |-> es, bytes |-> ApplyAll(BaseBytes[b], es)] : es \in EditSeqs(BaseBytes[b])}
-                   : b \in BaseNames}
+MutCase(b, es) == [fam |-> "mut", base |-> b, p |-> es, bytes |-> ApplyAll(BaseBytes[b], es)]
+\* the initial states of the mut family, enumerated by quantification (no set of all cases is ever built)
+MutInit ==
+  \E b \in BaseNames : LET E == Edits(BaseBytes[b]) IN
+    \E e1 \in E :
+       \/ kase = MutCase(b, <<e1[1], e1[2]>>)
+       \/ \E e2 \in {e \in E : e[1] > e1[1] /\ e[1] - e1[1] <= W2} :
+             kase = MutCase(b, <<e1[1], e1[2], e2[1], e2[2]>>)
+       \/ \E e2 \in {e \in E : e[1] > e1[1] /\ e[1] - e1[1] < W3} :
+             \E e3 \in {e \in E : e[1] > e2[1] /\ e[1] - e1[1] <= W3} :
+                kase = MutCase(b, <<e1[1], e1[2], e2[1], e2[2], e3[1], e3[2]>>)
 
 \* ---- tree surgery: type confusion and missing entries
 RECURSIVE Paths(_)
@@ -198,7 +200,7 @@ TinySeeds == {<<100, 45, 51, 58, 101>>, <<108, 45, 51, 58, 101>>, <<100, 49, 58,
 TinyCases == {[fam |-> "tiny", base |-> "", p |-> <<>>, bytes |-> t] : t \in StrUpTo(TINYLEN) \cup TinySeeds}
 
 BaseCases == {[fam |-> "base", base |-> b, p |-> <<>>, bytes |-> BaseBytes[b]] : b \in BaseNames}
-ICases == BaseCases \cup TruncCases \cup MutCases \cup ConfCases \cup MissCases \cup BigCases \cup NestCases \cup TinyCases
+SmallCases == BaseCases \cup TruncCases \cup ConfCases \cup MissCases \cup BigCases \cup NestCases
 
 \* ---------------------------------------------------------------- the handler
 R0 == {T_KNOWN}
@@ -221,7 +223,7 @@ UnknownMethod(r) == /\ r.ok /\ r.v.t = "d" /\ ~Ambiguous(r.v)
                     /\ (Has(r.v, 4) => Get(r.v, 4).t = "l")
 Reply(ty, x) == [ty |-> ty, rpc |-> TagOf(Get(x, 1))]
 
-IInit == /\ kase \in ICases
+IInit == /\ (kase \in SmallCases \/ kase \in TinyCases \/ MutInit)
         /\ phase = "recv" /\ cls = "" /\ why = "" /\ outcome = ""
         /\ routing = R0 /\ store = S0 /\ fails = 0 /\ sent = <<>> /\ pend = "waiting"
 
